@@ -649,15 +649,19 @@ def run(ctx, res):
     bad = rt["unreached"] + sum(rt["other_exception"].values()) + rt["no_anchor"]
     total = bad + rt["cases"]
     if total and bad / total > 0.03:
-        raise core.HarnessError(f"C35 generator drifted: {bad}/{total} runtime cases did not reach the raising call "
-                                f"(unreached {rt['unreached']}, other {rt['other_exception']}, no anchor {rt['no_anchor']}); "
-                                f"samples {rt.get('other_samples')}")
+        # the planned templates are valid and reach their raising call on the tree the generator was written against: when
+        # more than 3 % of them now fail earlier (a different exception, or never raise), the correspondence is broken
+        res.violate("C35:planned-runtime-cases-not-reached",
+                    f"{bad}/{total} planned runtime cases did not reach the raising call "
+                    f"(unreached {rt['unreached']}, other exceptions {rt['other_exception']}, no anchor {rt['no_anchor']}); "
+                    f"samples {rt.get('other_samples')}", {"samples": rt.get("other_samples")}, no_input=True)
     bad = sy["no_error"] + sum(sy["other_exception"].values()) + sy["no_anchor"]
     total = bad + sy["cases"]
     if total and bad / total > 0.03:
-        raise core.HarnessError(f"C35 generator drifted: {bad}/{total} syntax cases did not produce the planned error "
-                                f"(no error {sy['no_error']}, other {sy['other_exception']}, no anchor {sy['no_anchor']}); "
-                                f"samples {sy.get('no_error_samples')}")
+        res.violate("C35:planned-syntax-cases-not-reached",
+                    f"{bad}/{total} planned syntax-error cases did not produce the planned error "
+                    f"(no error {sy['no_error']}, other exceptions {sy['other_exception']}, no anchor {sy['no_anchor']}); "
+                    f"samples {sy.get('no_error_samples')}", {"samples": sy.get("no_error_samples")}, no_input=True)
     sample = rt_cases[0]
     res.coverage.update({
         "evaluations": n1 + n2 + n3 + n4,
